@@ -176,6 +176,9 @@ class Ctx:
         # lines; they never produce a VIOLATION (the property's text does not speak about them).
         self._ext = None
         self.extensions = {}
+        # source ties: model fragments regenerated from /repo's current source by a translator and
+        # proved equal to the hand-written model (source_tie_step); name -> record
+        self.source_ties = {}
 
     # ---- bookkeeping -----------------------------------------------------
     @property
@@ -200,6 +203,13 @@ class Ctx:
 
     def elapsed(self):
         return time.time() - self.t0
+
+    def tie_broken(self, name=None):
+        """True when the source tie `name` (or, without a name, any source tie of this property) is
+        not intact in this run: the module then escalates its search (thorough-size streams,
+        generated-model-vs-hand-model differencing) even in the quick tier."""
+        recs = [r for n, r in self.source_ties.items() if name is None or n == name]
+        return any(r.get("status") != "intact" for r in recs)
 
     # ---- outcome reporting ----------------------------------------------
     def extension(self, name):
@@ -496,6 +506,123 @@ def proof_step(ctx, thm_file):
             ctx.break_("proof", {"stage": "coqchk", "log": out3[-3000:]})
 
 
+SRCTIE = os.path.join(COQ, "srctie")
+STD_PRIM_RE = re.compile(r"^(FloatAxioms\.|Uint63Axioms\.|PrimInt63\.|PrimFloat\.|Uint63\.|Sint63\.|FloatOps\.|SpecFloat\.|"
+                         r"(float|int|abs|add|sub|mul|div|opp|sqrt|eqb|ltb|leb|compare|classify|of_uint63|normfr_mantissa|"
+                         r"frshiftexp|ldshiftexp|next_up|next_down|land|lor|lxor|lsl|lsr|of_sint63)$)")
+
+
+def _sha256_file(p):
+    try:
+        with open(p, "rb") as f:
+            return hashlib.sha256(f.read()).hexdigest()
+    except OSError:
+        return None
+
+
+def _hygiene_text(label, text):
+    bad = []
+    txt = re.sub(r'"(?:[^"]|"")*"', '""', strip_coq_comments(text))
+    for ln, line in enumerate(txt.splitlines(), 1):
+        if HYGIENE_RE.search(line):
+            bad.append("%s:%d: %s" % (label, ln, line.strip()[:120]))
+    return bad
+
+
+def source_tie_step(ctx):
+    """Second tie between model and code (DESIGN.md section 4.5): for every entry of the property
+    module's SOURCE_TIES, a fail-closed translator (harness/translate/<translator>.py, Python `ast`
+    -> Gallina text) regenerates a model fragment from the CURRENT source under REPO; the generated
+    file and the committed equivalence proofs coq/srctie/<equiv>.v (generated definition = the
+    hand-written model's definition, for all arguments) are compiled in the run's scratch directory.
+
+    status: intact | translator-rejected | generated-model-does-not-compile |
+            equivalence-proof-broken | not-closed | hygiene
+    A tie that is not intact is NOT by itself a proof or correspondence break (the hand-written
+    model and the correspondence check remain the deciding tie, and a harmless rewrite can break a
+    syntactic translation): it is recorded in the evidence file, printed as SOURCE-TIE-NOTE, and the
+    module escalates its search (ctx.tie_broken()).  A concrete input on which the generated and
+    the hand-written model differ is fed to the ordinary correspondence / oracle machinery by the
+    module (hook `on_source_tie_break(ctx, name, rec)`), where it is judged like any other case."""
+    ties = getattr(ctx.mod, "SOURCE_TIES", None) or []
+    if not ties:
+        return
+    gen_dir = os.path.join(ctx.scratch, "srctie")
+    os.makedirs(gen_dir, exist_ok=True)
+    for tie in ties:
+        t = time.time()
+        name = tie["name"]
+        rec = {"status": "intact", "translator": "harness/translate/%s.py" % tie["translator"],
+               "fragment": tie.get("fragment", ""), "generated_module": "DDGen." + tie["gen_module"],
+               "equivalence_files": ["coq/srctie/%s.v" % e for e in tie.get("equiv", [])],
+               "source_sha256": {f: _sha256_file(os.path.join(REPO, f)) for f in tie.get("sources", [])},
+               "theorems": [], "axioms_per_theorem": {}}
+        ctx.source_ties[name] = rec
+        needs = tie.get("needs", [])
+        if needs:
+            rc, out = build_coq(target=" ".join("theories/" + m.replace(".", "/") + ".vo" for m in needs))
+            if rc != 0:
+                rec.update(status="equivalence-proof-broken", detail="build of the hand-written model failed: " + out[-1500:])
+                continue
+        try:
+            tmod = importlib.import_module("harness.translate." + tie["translator"])
+            text = tmod.translate(REPO)
+        except Exception as e:  # fail closed: anything outside the supported fragment rejects the source
+            rec.update(status="translator-rejected", detail=("%s: %s" % (type(e).__name__, e))[:1500])
+            rec["wall_s"] = round(time.time() - t, 1)
+            continue
+        gen = os.path.join(gen_dir, tie["gen_module"] + ".v")
+        with open(gen, "w") as f:
+            f.write(text)
+        rec["generated_sha256"] = hashlib.sha256(text.encode()).hexdigest()
+        rec["generated_lines"] = text.count("\n")
+        committed = os.path.join(SRCTIE, tie["gen_module"] + ".v")
+        if os.path.exists(committed):
+            rec["same_as_committed_generated_file"] = (open(committed).read() == text)
+        hb = _hygiene_text(tie["gen_module"] + ".v", text)
+        base = ["coqc", "-Q", THEORIES, "DD", "-Q", gen_dir, "DDGen"]
+        rc, out = sh(base + [gen], timeout=600, cwd=gen_dir)
+        if rc != 0:
+            rec.update(status="generated-model-does-not-compile", detail=out[-1500:])
+            rec["wall_s"] = round(time.time() - t, 1)
+            continue
+        for e in tie.get("equiv", []):
+            src = os.path.join(SRCTIE, e + ".v")
+            etext = open(src).read()
+            hb += _hygiene_text(e + ".v", etext)
+            dst = os.path.join(gen_dir, e + ".v")
+            shutil.copy(src, dst)
+            rc, out = sh(base + [dst], timeout=900, cwd=gen_dir)
+            stripped = strip_coq_comments(etext)
+            thms = re.findall(r"^\s*(?:Theorem|Lemma|Corollary)\s+(\w+)", stripped, re.M)
+            if rc != 0:
+                rec.update(status="equivalence-proof-broken", detail="coqc %s.v: %s" % (e, out[-1500:]))
+                break
+            rec["theorems"] += thms
+            blocks = [b for b in re.split(r"(?=Closed under the global context|Axioms:)", out)
+                      if b.startswith("Closed") or b.startswith("Axioms:")]
+            printed = re.findall(r"Print Assumptions\s+(\w+)", stripped)
+            for nm, b in zip(printed, blocks):
+                rec["axioms_per_theorem"][nm] = [] if b.startswith("Closed") else re.findall(r"^(\S+)\s*:", b[len("Axioms:"):], re.M)
+            # the standard library's primitive integers / floats and their specification axioms (as listed for the
+            # float-dependent theorems of C19 / C17, DESIGN.md section 6) are accepted and recorded; anything else is not
+            foreign = [a for nm in printed for a in rec["axioms_per_theorem"].get(nm, []) if not STD_PRIM_RE.match(a)]
+            if len(printed) != len(blocks) or foreign:
+                rec.update(status="not-closed", detail="Print Assumptions: %d commands, %d blocks, %r" % (len(printed), len(blocks), rec["axioms_per_theorem"]))
+                break
+        if hb and rec["status"] == "intact":
+            rec.update(status="hygiene", detail=hb[:10])
+        rec["wall_s"] = round(time.time() - t, 1)
+    for name, rec in ctx.source_ties.items():
+        if rec["status"] != "intact":
+            hook = getattr(ctx.mod, "on_source_tie_break", None)
+            if hook:
+                try:
+                    rec["search"] = hook(ctx, name, rec)
+                except Exception as e:
+                    rec["search"] = {"error": repr(e)[:500]}
+
+
 # --------------------------------------------------------------------------
 # evidence + exit protocol
 # --------------------------------------------------------------------------
@@ -557,6 +684,7 @@ def finish(ctx):
             "known_findings_seen": {k: v["n"] for k, v in ctx.known_seen.items()},
             "direct_oracle_failures": len(ctx.failures),
             "extensions": ctx.extensions,
+            "source_tie": ctx.source_ties,
             **ctx.notes,
         },
         "assumptions": list(getattr(mod, "ASSUMPTIONS", [])),
@@ -577,6 +705,11 @@ def finish(ctx):
             lines.append("EXTENSION-NOTE: property=%s extension=%s (outside the property's stated domain; not a violation): "
                          "%d oracle failure(s), %d model/implementation disagreement(s) or break(s); details in the evidence file"
                          % (ctx.pid, name, x["n_failures"], x["n_breaks"]))
+    for name, rec in sorted(ctx.source_ties.items()):
+        if rec.get("status") != "intact":
+            lines.append("SOURCE-TIE-NOTE: property=%s fragment=%s status=%s (the model fragment translated from the current source is no "
+                         "longer proved equal to the hand-written model; not by itself a violation: the correspondence check remains the "
+                         "deciding tie and the search was escalated; details in the evidence file)" % (ctx.pid, name, rec.get("status")))
     for l in lines:
         print(l)
     print("%s %s tier=%s seed=%d proof=%d/%d corr=%d cases (%d mismatches) oracle_evals=%d failures=%d known=%d wall=%.1fs" % (
@@ -605,6 +738,8 @@ def main(argv):
         ctx.mod = importlib.import_module("harness.props." + a.pid.lower())
         if not a.no_proof:
             proof_step(ctx, ctx.mod.THEOREM_FILE)
+        if not a.no_proof or os.environ.get("VERIF_SOURCE_TIE") == "1":
+            source_tie_step(ctx)
         if a.replay:
             with open(a.replay) as f:
                 ctx.mod.replay(ctx, json.load(f))
